@@ -1,17 +1,17 @@
 SPECIFICATION Spec
 CONSTANTS
   Classes <- Classes4
-  Outs <- OutsC02
-  Durs = {0, 1, 2, 5}
-  Rets <- RetsC02
-  Advs <- AdvsAll
-  Decs <- DecsSleep
-  BFaults <- BFaultsNone
+  Outs <- OutsC13
+  Durs = {0, 1}
+  Rets <- RetsTwo
+  Advs <- AdvsC13
+  Decs <- DecsAll
+  BFaults <- BFaultsAll
   Ras <- RasNone
   Modes = {"call", "exec"}
   RunGaps <- GapsNone
-  NRuns = 1
-  Configs <- ConfigsC02
+  NRuns = 2
+  Configs <- ConfigsC13T
   RecordHist = FALSE
 INVARIANT NoViolation
 INVARIANT AttemptsBounded
